@@ -177,6 +177,8 @@ def main(tier, seed):
         except Exception as e:
             rep.notes.append('unsupported-op probe %s: %r' % (name, e))
     matrix_rules_section(rep, ap, rng, tier)
+    import r11
+    r11.c03_factorization_rules(rep, ap, rng, tier, PID)
     import r10
     r10.c03_eigh_mixed_ties(rep, ap, rng, tier)
     return rep.finish()
